@@ -23,7 +23,7 @@ def std(quick_parts=16, thorough_extra=None, conc=True):
 
 PROPS = {
     "C09": dict(
-        technique='runtime monitoring: 128-bit index-map oracle, exhaustive enumeration of residues p mod 2N at run time, ASan+UBSan + ThreadSanitizer pass over the multi-threaded cases; buffer placement modes (aligned, adjacent, guard pages, far apart, packed) and a per-process prelude of unrelated calls',
+        technique='runtime monitoring: 128-bit index-map oracle, exhaustive enumeration of residues p mod 2N at run time, ASan+UBSan + ThreadSanitizer pass over the multi-threaded cases; buffer placement modes (aligned, adjacent, guard pages, far apart incl. exact multiples of 64 GiB, packed, nearby page offsets) and a per-process prelude of unrelated calls',
         exhaustive_subspaces=dict(
             quick=["every residue p mod 2N for every N = 1..8192 on all 11 coefficient kernels (7 for even p) with the injective probe a_i = i+1 "
                    "(the maps are data-independent signed permutations, so one injective probe determines them); counts per N in monitors.exhaustive_residues:*"],
@@ -40,7 +40,7 @@ PROPS = {
                      "determines the signed permutation", ASAN_NOTE],
     ),
     "C05": dict(
-        technique='runtime monitoring: 1024-bit big-integer digit oracle on every normalisation call, exhaustive small-k windows, canaries, ASan+UBSan + ThreadSanitizer pass over the multi-threaded cases; buffer placement modes (aligned, adjacent, guard pages, far apart, packed) and a per-process prelude of unrelated calls',
+        technique='runtime monitoring: 1024-bit big-integer digit oracle on every normalisation call, exhaustive small-k windows, canaries, ASan+UBSan + ThreadSanitizer pass over the multi-threaded cases; buffer placement modes (aligned, adjacent, guard pages, far apart incl. exact multiples of 64 GiB, packed, nearby page offsets) and a per-process prelude of unrelated calls',
         exhaustive_subspaces=dict(
             quick=["znx_normalize: all (in, carry_in) pairs of the window [-2^(k+1), 2^(k+1)]^2 for k = 1,2,3 x 6 presence shapes x 7 aliasings",
                    "vec_znx_normalize_base2k: all limb-value combinations of the window for k = 1,2,3, a_size <= 3, res_size <= a_size+1"],
@@ -56,31 +56,31 @@ PROPS = {
                      "carry_in of the primitive restricted to |c| < 2^(63-k) (digit + carry cannot overflow int64)", ASAN_NOTE],
     ),
     "C08": dict(
-        technique='runtime monitoring: per-limb definition oracle, ASan-poisoned stride padding and guard bands with canaries, input snapshots + ThreadSanitizer pass over the multi-threaded cases; buffer placement modes (aligned, adjacent, guard pages, far apart, packed) and a per-process prelude of unrelated calls',
+        technique='runtime monitoring: per-limb definition oracle, ASan-poisoned stride padding and guard bands with canaries, input snapshots + ThreadSanitizer pass over the multi-threaded cases; buffer placement modes (aligned, adjacent, guard pages, far apart incl. exact multiples of 64 GiB, packed, nearby page offsets) and a per-process prelude of unrelated calls',
         runs=std(),
         rule=("case = one call (operation, level module/kernel, module type, dispatch, N, res/a/b limb counts, stride "
               "choices, extra-limb flag); distinct by descriptor hash; non-trivial when res_size >= 1 and at least one "
               "source limb is used"
              " Later additions have their own keys in by_case_class (DESIGN.md 5.1): call sequences and object life cycles, multi-threaded cases (also run under ThreadSanitizer), sweeps over every value of a size parameter, placement / alignment / data-structure modes drawn from the case hash."),
-        require={"all": ["limbs_compared", "dispatch:native", "dispatch:generic", "dispatch:kernel-avx", "dispatch:kernel-ref", "aliased_calls", "interleaved_view_calls", "concurrent_vector_calls", "same_input_calls"]},
+        require={"all": ["limbs_compared", "dispatch:native", "dispatch:generic", "dispatch:kernel-avx", "dispatch:kernel-ref", "aliased_calls", "interleaved_view_calls", "concurrent_vector_calls", "same_input_calls", "long_history_calls"]},
         assumptions=["per-limb definition evaluated by the harness (missing limb = 0)",
                      "stride padding and guard bands are ASan-poisoned and carry canaries; inputs are byte-snapshotted", ASAN_NOTE],
     ),
     "C01": dict(
-        technique='runtime monitoring: exact negacyclic-product oracle on every FFT64 product executed under ASan+UBSan, both dispatch configurations (hook H1), feedback-directed sign-flip search + ThreadSanitizer pass over the multi-threaded cases; buffer placement modes (aligned, adjacent, guard pages, far apart, packed) and a per-process prelude of unrelated calls',
+        technique='runtime monitoring: exact negacyclic-product oracle on every FFT64 product executed under ASan+UBSan, both dispatch configurations (hook H1), feedback-directed sign-flip search + ThreadSanitizer pass over the multi-threaded cases; buffer placement modes (aligned, adjacent, guard pages, far apart incl. exact multiples of 64 GiB, packed, nearby page offsets) and a per-process prelude of unrelated calls',
         runs=std(),
         rule=("case = one product through one FFT64 path (small single product | svp_prepare+svp_apply_dft+idft | "
               "...+idft_tmp_a) for (N, operand family, dispatch, res/a limb counts, stride, repetition); distinct by "
               "descriptor hash; non-trivial when both operands are non-zero, N >= 4 and at least one row is produced"
              " Later additions have their own keys in by_case_class (DESIGN.md 5.1): call sequences and object life cycles, multi-threaded cases (also run under ThreadSanitizer), sweeps over every value of a size parameter, placement / alignment / data-structure modes drawn from the case hash."),
-        require={"all": ["concurrent_entry_calls", "products_checked", "exact_regime_products", "budget_regime_products", "frontier_products", "lifecycle_products", "idft_variant:idft(res==a_dft),short-dft",
+        require={"all": ["concurrent_entry_calls", "products_checked", "exact_regime_products", "budget_regime_products", "frontier_products", "lifecycle_products", "lifecycle_uses", "idft_variant:idft(res==a_dft),short-dft",
                          "zero_rows_checked", "oracle_selfcheck_ok"]},
         assumptions=["exact oracle: schoolbook with 128-bit accumulators, or an oracle-side NTT modulo a 62-bit prime "
                      "(cross-checked against schoolbook at start-up)",
                      "budget E evaluated in long double from the actual operands and inflated by 2^-40", ASAN_NOTE],
     ),
     "C02": dict(
-        technique='runtime monitoring: exact per-column oracle over the full shape box, NaN-prefilled exact-size scratch, canaries, ASan+UBSan + ThreadSanitizer pass over the multi-threaded cases; buffer placement modes (aligned, adjacent, guard pages, far apart, packed) and a per-process prelude of unrelated calls',
+        technique='runtime monitoring: exact per-column oracle over the full shape box, NaN-prefilled exact-size scratch, canaries, ASan+UBSan + ThreadSanitizer pass over the multi-threaded cases; buffer placement modes (aligned, adjacent, guard pages, far apart incl. exact multiples of 64 GiB, packed, nearby page offsets) and a per-process prelude of unrelated calls',
         runs=std(),
         rule=("case = one (N, nrows, ncols, a_size, res_size, a stride, dispatch, operand magnitude class) shape: "
               "prepare + both apply entry points + inverse DFT; distinct by descriptor hash; non-trivial when "
@@ -92,7 +92,7 @@ PROPS = {
                      "budgets of the rows + 1/2", "scratch buffers are exactly *_tmp_bytes and NaN-prefilled", ASAN_NOTE],
     ),
     "C10": dict(
-        technique='runtime monitoring: 128-bit modular / CRT oracle over ref and AVX2 kernels, non-canonical and extremal operands, ASan+UBSan + ThreadSanitizer pass over the multi-threaded cases; buffer placement modes (aligned, adjacent, guard pages, far apart, packed) and a per-process prelude of unrelated calls',
+        technique='runtime monitoring: 128-bit modular / CRT oracle over ref and AVX2 kernels, non-canonical and extremal operands, ASan+UBSan + ThreadSanitizer pass over the multi-threaded cases; buffer placement modes (aligned, adjacent, guard pages, far apart incl. exact multiples of 64 GiB, packed, nearby page offsets) and a per-process prelude of unrelated calls',
         exhaustive_subspaces=dict(
             quick=["every product kernel flavour at every length ell with ell mod 64 in {63, 0, 1} in 0..10000 (regime changes of blocked / unrolled loops)"],
             thorough=["every product kernel flavour at every length ell = 0..10000 (monitors.exhaustive_ell_values)"]),
@@ -101,25 +101,25 @@ PROPS = {
               "conversions / block copies (nn, repetition); distinct by descriptor hash; non-trivial when ell >= 1 or "
               "the conversion input is non-empty"
              " Later additions have their own keys in by_case_class (DESIGN.md 5.1): call sequences and object life cycles, multi-threaded cases (also run under ThreadSanitizer), sweeps over every value of a size parameter, placement / alignment / data-structure modes drawn from the case hash."),
-        require={"all": ["product_lanes_checked", "conversion_values_checked", "blocks_checked", "concurrent_kernel_calls", "exhaustive_ell_values"]},
+        require={"all": ["product_lanes_checked", "conversion_values_checked", "blocks_checked", "concurrent_kernel_calls", "exhaustive_ell_values", "lifecycle_uses", "lifecycle_mass_objects_alive"]},
         assumptions=["oracle: operands reduced modulo each prime, products accumulated with 128-bit arithmetic; CRT "
                      "constants recomputed by the oracle", ASAN_NOTE],
     ),
     "C03": dict(
-        technique='runtime monitoring: modular-arithmetic oracle (round trip, linearity, convolution, Horner at the observed roots) on real NTT executions with tables created in interleaved orders, ASan+UBSan + ThreadSanitizer pass over the multi-threaded cases; buffer placement modes (aligned, adjacent, guard pages, far apart, packed) and a per-process prelude of unrelated calls',
+        technique='runtime monitoring: modular-arithmetic oracle (round trip, linearity, convolution, Horner at the observed roots) on real NTT executions with tables created in interleaved orders, ASan+UBSan + ThreadSanitizer pass over the multi-threaded cases; buffer placement modes (aligned, adjacent, guard pages, far apart incl. exact multiples of 64 GiB, packed, nearby page offsets) and a per-process prelude of unrelated calls',
         runs=std(),
         rule=("case = (n, lane family, table set, repetition) transform batch (round trip + linearity + convolution), "
               "an evaluation-map check, or one module-level dft/idft call (N, a/dft/res limb counts, stride, variant); "
               "distinct by descriptor hash; non-trivial when n >= 2 and the input is not constant zero"
              " Later additions have their own keys in by_case_class (DESIGN.md 5.1): call sequences and object life cycles, multi-threaded cases (also run under ThreadSanitizer), sweeps over every value of a size parameter, placement / alignment / data-structure modes drawn from the case hash."),
-        require={"all": ["roundtrips_checked", "linearity_checked", "convolutions_checked", "horner_evaluations", "spectrum_limbs_checked", "concurrently_built_tables",
+        require={"all": ["roundtrips_checked", "linearity_checked", "convolutions_checked", "horner_evaluations", "spectrum_limbs_checked", "concurrently_built_tables", "lifecycle_uses",
                          "module_roundtrip_limbs"]},
         assumptions=["oracle works on the residues of the 64-bit lanes modulo each prime; convolution by schoolbook "
                      "(n<=256) or an oracle-side NTT with its own root search",
                      "tables of all 17 sizes are alive together, created large-to-small and small-to-large", ASAN_NOTE],
     ),
     "C04": dict(
-        technique='runtime monitoring: hook H2 stage trace checked online by a 128-bit shadow execution with operand-fit predicates, worst-case operand workloads, hill-climbing on observed maxima, ASan+UBSan + ThreadSanitizer pass over the multi-threaded cases; buffer placement modes (aligned, adjacent, guard pages, far apart, packed) and a per-process prelude of unrelated calls',
+        technique='runtime monitoring: hook H2 stage trace checked online by a 128-bit shadow execution with operand-fit predicates, worst-case operand workloads, hill-climbing on observed maxima, ASan+UBSan + ThreadSanitizer pass over the multi-threaded cases; buffer placement modes (aligned, adjacent, guard pages, far apart incl. exact multiples of 64 GiB, packed, nearby page offsets) and a per-process prelude of unrelated calls',
         exhaustive_subspaces=dict(
             quick=["every product kernel flavour at every length ell with ell mod 64 in {63, 0, 1} in 0..10000 (regime changes of blocked / unrolled loops)"],
             thorough=["every product kernel flavour at every length ell = 0..10000 (monitors.exhaustive_ell_values)"]),
@@ -130,14 +130,14 @@ PROPS = {
               "transform batch (n, lane family, repetition: ntt, intt of its output, intt and ntt on the raw lanes); "
               "distinct by descriptor hash; non-trivial when ell >= 1 / n >= 2 with at least one lane >= 2^63"
              " Later additions have their own keys in by_case_class (DESIGN.md 5.1): call sequences and object life cycles, multi-threaded cases (also run under ThreadSanitizer), sweeps over every value of a size parameter, placement / alignment / data-structure modes drawn from the case hash."),
-        require={"all": ["product_lanes_checked", "max_ell_products", "h2_stage_events", "h2_traced_transforms", "concurrently_built_tables", "concurrent_kernel_calls", "exhaustive_ell_values"]},
+        require={"all": ["product_lanes_checked", "max_ell_products", "h2_stage_events", "h2_traced_transforms", "concurrently_built_tables", "concurrent_kernel_calls", "exhaustive_ell_values", "lifecycle_uses", "lifecycle_mass_objects_alive"]},
         assumptions=["hook H2 reports every stage of the real schedule; the shadow re-executes it in 128-bit arithmetic "
                      "from the library's own metadata and must reproduce the real lanes bit for bit",
                      "the interval envelope is reported as information (conservative bounds), never as a violation",
                      "default 30-bit prime set", ASAN_NOTE],
     ),
     "C06": dict(
-        technique='runtime monitoring: long-double FFT oracle validated by float128 Horner evaluation, every m and implementation incl. assembly leaves, bitwise repeat + table hash, ASan+UBSan (+memcheck in thorough) + ThreadSanitizer pass over the multi-threaded cases; buffer placement modes (aligned, adjacent, guard pages, far apart, packed) and a per-process prelude of unrelated calls',
+        technique='runtime monitoring: long-double FFT oracle validated by float128 Horner evaluation, every m and implementation incl. assembly leaves, bitwise repeat + table hash, ASan+UBSan (+memcheck in thorough) + ThreadSanitizer pass over the multi-threaded cases; buffer placement modes (aligned, adjacent, guard pages, far apart incl. exact multiples of 64 GiB, packed, nearby page offsets) and a per-process prelude of unrelated calls',
         runs=plan([dict(cfg="asan", parts=16), dict(CONC)],
                   [dict(cfg="asan", parts=16, tier="quick"), dict(cfg="plain", parts=16), dict(CONC, parts=8),
                    dict(cfg="plain", parts=8, tier="quick", mode="memcheck",
@@ -146,7 +146,7 @@ PROPS = {
               "transform twice on a guarded exact-size buffer; distinct by descriptor hash; non-trivial when m >= 2 "
               "and the input is non-zero"
              " Later additions have their own keys in by_case_class (DESIGN.md 5.1): call sequences and object life cycles, multi-threaded cases (also run under ThreadSanitizer), sweeps over every value of a size parameter, placement / alignment / data-structure modes drawn from the case hash."),
-        require={"all": ["concurrent_entry_calls", "transforms_checked", "horner_validations", "impl:dispatch-native", "impl:dispatch-generic",
+        require={"all": ["concurrent_entry_calls", "transforms_checked", "horner_validations", "lifecycle_uses", "impl:dispatch-native", "impl:dispatch-generic",
                          "impl:ref-direct", "impl:avx2-direct", "impl:leaf-avx", "impl:leaf-ref", "impl:bfs16-ref", "impl:builtin-buffers", "impl:naive", "tables_built_concurrently", "cold_process_constructions", "table_lifecycle_checks", "simple_sequence_calls",
                          "impl:rec16-ref"]},
         assumptions=["long-double FFT oracle (own twiddles by cosl/sinl), its rounding (about log2(m) 2^-64 relative) "
@@ -155,7 +155,7 @@ PROPS = {
                      "memcheck (thorough tier) instruments their memory accesses", ASAN_NOTE],
     ),
     "C14": dict(
-        technique='runtime monitoring: exact float128 rounding oracle, boundary and dense near-tie sweeps over every divisor / bound / overhead and variant, ASan+UBSan + ThreadSanitizer pass over the multi-threaded cases; buffer placement modes (aligned, adjacent, guard pages, far apart, packed) and a per-process prelude of unrelated calls',
+        technique='runtime monitoring: exact float128 rounding oracle, boundary and dense near-tie sweeps over every divisor / bound / overhead and variant, ASan+UBSan + ThreadSanitizer pass over the multi-threaded cases; buffer placement modes (aligned, adjacent, guard pages, far apart incl. exact multiples of 64 GiB, packed, nearby page offsets) and a per-process prelude of unrelated calls',
         exhaustive_subspaces=dict(
             quick=["int32 -> complex (cplx_from_znx32 and cplx_from_tnx32, reference and AVX2/FMA kernels): every one of the 2^32 int32 values, "
                    "each compared with the exact double (counts in monitors.exhaustive_int32:*)"],
@@ -168,13 +168,13 @@ PROPS = {
              " Later additions have their own keys in by_case_class (DESIGN.md 5.1): call sequences and object life cycles, multi-threaded cases (also run under ThreadSanitizer), sweeps over every value of a size parameter, placement / alignment / data-structure modes drawn from the case hash."),
         require={"all": ["values_checked", "rounding_exercised", "conv:reim_from_znx64", "conv:reim_to_znx64",
                          "conv:reim_to_tnx", "conv:cplx_from_znx32", "conv:cplx_from_tnx32", "conv:cplx_to_tnx32",
-                         "exhaustive_int32:cplx_from_znx32_ref", "exhaustive_int32:cplx_from_znx32_avx2_fma", "exhaustive_int32:cplx_from_tnx32_ref", "exhaustive_int32:cplx_from_tnx32_avx2_fma"]},
+                         "exhaustive_int32:cplx_from_znx32_ref", "exhaustive_int32:cplx_from_znx32_avx2_fma", "exhaustive_int32:cplx_from_tnx32_ref", "exhaustive_int32:cplx_from_tnx32_avx2_fma", "page_offset_sweep_calls", "concurrent_simple_conversion_calls"]},
         assumptions=["exact comparison in __float128: r*d, x and 2^32 scalings fit in 113 bits",
                      "exact .5 ties accept both neighbours; accelerated kernels are called directly only at sizes that "
                      "fill their vector step (the library itself selects them for m >= 8)", ASAN_NOTE],
     ),
     "C17": dict(
-        technique='runtime monitoring: layout-definition and long-double complex-arithmetic oracles with analytic rounding budgets, ASan+UBSan + ThreadSanitizer pass over the multi-threaded cases; buffer placement modes (aligned, adjacent, guard pages, far apart, packed) and a per-process prelude of unrelated calls',
+        technique='runtime monitoring: layout-definition and long-double complex-arithmetic oracles with analytic rounding budgets, ASan+UBSan + ThreadSanitizer pass over the multi-threaded cases; buffer placement modes (aligned, adjacent, guard pages, far apart incl. exact multiples of 64 GiB, packed, nearby page offsets) and a per-process prelude of unrelated calls',
         runs=std(),
         rule=("case = one kernel batch: extract/save (m, ref|avx, nrows, row stride, contiguous|strided) over all or "
               "sampled block indices; layout round trip (m, variant); dot product (1|2 columns, ref|avx2, nrows, value "
@@ -188,19 +188,19 @@ PROPS = {
                      "constrained (the library uses 0,2,1,3); the round trip and the re/im pairing are", ASAN_NOTE],
     ),
     "C13": dict(
-        technique='runtime monitoring: aliased-vs-separate differential (bitwise) for every supported aliasing pattern, ASan+UBSan + ThreadSanitizer pass over the multi-threaded cases; buffer placement modes (aligned, adjacent, guard pages, far apart, packed) and a per-process prelude of unrelated calls',
+        technique='runtime monitoring: aliased-vs-separate differential (bitwise) for every supported aliasing pattern, ASan+UBSan + ThreadSanitizer pass over the multi-threaded cases; buffer placement modes (aligned, adjacent, guard pages, far apart incl. exact multiples of 64 GiB, packed, nearby page offsets) and a per-process prelude of unrelated calls',
         runs=std(),
         rule=("case = one aliasing pattern exercised once (operation+pattern, N, module type, dispatch, res/aliased/other "
               "limb counts, strides, p class, repetition): the out-of-place call on a copy and the aliased call; "
               "distinct by descriptor hash; non-trivial when the aliased operand and the output have >= 1 limb"
              " Later additions have their own keys in by_case_class (DESIGN.md 5.1): call sequences and object life cycles, multi-threaded cases (also run under ThreadSanitizer), sweeps over every value of a size parameter, placement / alignment / data-structure modes drawn from the case hash."),
         require={"all": ["aliased_pairs", "alias:vec_znx_idft(res==a_dft)", "alias:vec_znx_add(res==b)",
-                         "alias:vec_znx_big_sub_small_a(res==b)", "alias:reim_fftvec(r==a==b)", "alias:cplx_fftvec(r==b)", "concurrent_aliased_calls"]},
+                         "alias:vec_znx_big_sub_small_a(res==b)", "alias:reim_fftvec(r==a==b)", "alias:cplx_fftvec(r==b)", "concurrent_aliased_calls", "long_history_calls"]},
         assumptions=["the aliased buffer is the very same pointer with the same stride; it holds live (stale) data beyond "
                      "the aliased operand's limb count", "bitwise equality with the out-of-place call (same kernel runs)", ASAN_NOTE],
     ),
     "C11": dict(
-        technique='sanitizers: ASan+UBSan on exact-size guard-banded poisoned buffers, canaries, differential pre-fill, valgrind memcheck definedness, LeakSanitizer + ThreadSanitizer pass over the multi-threaded cases; buffer placement modes (aligned, adjacent, guard pages, far apart, packed) and a per-process prelude of unrelated calls',
+        technique='sanitizers: ASan+UBSan on exact-size guard-banded poisoned buffers, canaries, differential pre-fill, valgrind memcheck definedness, LeakSanitizer + ThreadSanitizer pass over the multi-threaded cases; buffer placement modes (aligned, adjacent, guard pages, far apart incl. exact multiples of 64 GiB, packed, nearby page offsets) and a per-process prelude of unrelated calls',
         runs=plan([dict(cfg="asan", parts=16), dict(CONC),
                    dict(cfg="asan", parts=4, mode="leaks", env={"ASAN_OPTIONS": "abort_on_error=1:detect_leaks=1:leak_check_at_exit=0:allocator_may_return_null=1:handle_abort=0"}),
                    dict(cfg="plain", parts=8, mode="memcheck", wrapper=["valgrind", "-q", "--error-exitcode=97", "--errors-for-leak-kinds=none"], timeout=1800)],
@@ -212,7 +212,7 @@ PROPS = {
               "new/delete cycle batch; distinct by descriptor hash; non-trivial when at least one buffer is non-empty "
               "(zero-size classes are counted separately in shape:*)"
              " Later additions have their own keys in by_case_class (DESIGN.md 5.1): call sequences and object life cycles, multi-threaded cases (also run under ThreadSanitizer), sweeps over every value of a size parameter, placement / alignment / data-structure modes drawn from the case hash."),
-        require={"all": ["instrumented_calls", "scratch_bytes_exact", "object_cycles", "leak_check_rounds", "builtin_buffer_bytes_checked",
+        require={"all": ["instrumented_calls", "scratch_bytes_exact", "object_cycles", "leak_check_rounds", "builtin_buffer_bytes_checked", "lifecycle_uses", "lifecycle_mass_objects_alive", "cases_with_buffers_exact_multiples_of_64GiB_apart", "cases_with_buffers_at_nearby_page_offsets",
                          "memcheck_definedness_checks"]},
         assumptions=["every buffer is allocated at exactly the documented size (bytes_of_*, *_tmp_bytes) between "
                      "ASan-poisoned, canary-filled guard bands; misalignments are multiples of 8 bytes (16 for __int128)",
@@ -228,14 +228,14 @@ PROPS = {
               "points of the phase on private data against the shared modules/tables; distinct by descriptor hash; "
               "non-trivial when at least one pair of calls from different threads overlapped in time"
              " Later additions have their own keys in by_case_class (DESIGN.md 5.1): call sequences and object life cycles, multi-threaded cases (also run under ThreadSanitizer), sweeps over every value of a size parameter, placement / alignment / data-structure modes drawn from the case hash."),
-        require={"all": ["concurrent_calls", "overlapping_call_pairs", "tsan_instrumented_calls", "ro_protected_bytes",
+        require={"all": ["concurrent_calls", "overlapping_call_pairs", "tsan_instrumented_calls", "ro_protected_bytes", "steady_concurrent_calls",
                          "schedule:free", "schedule:pinned-2cpu", "schedule:yield", "concurrent_constructions", "first_use_cases", "concurrently_allocated_objects", "simple_vs_table_twin_checks", "adjacent_slot_updates", "shared_objects_dispatch:generic", "shared_objects_dispatch:native",
                          "entry_points_observed_concurrently", "overlap_pairs"]},
         assumptions=["gcc ThreadSanitizer happens-before detection (does not see accesses made inside the four .s kernels, "
                      "which only touch caller data)", "in the 'ro' build every allocation made while creating modules and "
                      "tables is served from private mappings that are PROT_READ during the concurrent phase",
                      "executions decide only the interleavings that were observed (overlap counts are in the evidence)"],
-        technique="runtime monitoring: ThreadSanitizer + read-only (mprotect) tables + concurrent-vs-sequential differential + cold first use, concurrent construction / allocation, thread churn, oversubscription; helgrind in the thorough tier",
+        technique="runtime monitoring: ThreadSanitizer + read-only (mprotect) tables + concurrent-vs-sequential differential + cold first use, concurrent construction / allocation, thread churn, oversubscription, constant-argument jobs side by side, warm-up by a thread that exits; helgrind in the thorough tier",
     ),
     "C15": dict(
         runs=std(),
@@ -244,12 +244,12 @@ PROPS = {
               "them on the functions with hidden caches; distinct by descriptor hash (program number); non-trivial when "
               "the program contains at least one equal-argument repeat separated by other calls"
              " Later additions have their own keys in by_case_class (DESIGN.md 5.1): call sequences and object life cycles, multi-threaded cases (also run under ThreadSanitizer), sweeps over every value of a size parameter, placement / alignment / data-structure modes drawn from the case hash."),
-        require={"all": ["calls", "repeated_argument_pairs_checked", "simple_vs_table_twin_checks", "fresh_process_comparisons", "concurrent_repetitions", "table_buffer_histories",
+        require={"all": ["calls", "repeated_argument_pairs_checked", "simple_vs_table_twin_checks", "fresh_process_comparisons", "concurrent_repetitions", "table_buffer_histories", "long_history_calls", "placement:7", "placement:8",
                          "cache_parameter_transitions", "function_parameter_states"]},
         assumptions=["output hashes (64-bit) stand for the output bytes", "arguments derive from the seed only; the "
                      "pre-fill pattern of outputs/scratch and the byte offset (0..56) of every buffer change between "
                      "repeats", ASAN_NOTE],
-        technique="runtime monitoring: online call-history checker over random programs (equal-argument repeats under other pre-fills, alignments and buffer placements), comparison of sampled calls with the same call made as the only call of a fresh process (forked pristine server), *_simple vs table twins, repetition by concurrent threads, FP-environment monitor, ASan+UBSan + ThreadSanitizer pass",
+        technique="runtime monitoring: online call-history checker over random programs (equal-argument repeats under other pre-fills, alignments and buffer placements) and over 65794-call histories of every entry point (equal arguments exactly 2^8 and 2^16 calls apart), comparison of sampled calls with the same call made as the only call of a fresh process (forked pristine server), *_simple vs table twins, repetition by concurrent threads, FP-environment monitor, ASan+UBSan + ThreadSanitizer pass",
     ),
     "C18": dict(
         runs=plan([dict(cfg="asan", parts=16), dict(cfg="plain", tag="ro", defs="-DVP_ROALLOC", parts=16)],
@@ -259,7 +259,7 @@ PROPS = {
               "(padding included) and a table hash after each entry point; distinct by descriptor hash; non-trivial when "
               "at least one call with a non-empty source ran"
              " Later additions have their own keys in by_case_class (DESIGN.md 5.1): call sequences and object life cycles, multi-threaded cases (also run under ThreadSanitizer), sweeps over every value of a size parameter, placement / alignment / data-structure modes drawn from the case hash."),
-        require={"all": ["calls_snapshotted", "source_bytes_compared", "table_bytes_compared", "ro_protected_bytes", "inplace_tail_checks", "role_rotation_calls"]},
+        require={"all": ["calls_snapshotted", "source_bytes_compared", "table_bytes_compared", "ro_protected_bytes", "inplace_tail_checks", "role_rotation_calls", "long_history_calls"]},
         assumptions=["sources deliberately overwritten by contract are declared INOUT in the catalogue (vec_znx_idft_tmp_a, "
                      "in-place transforms, accumulating products) and are not snapshotted",
                      "table hashes cover every allocation whose layout is known; in the 'ro' build all allocations made "
@@ -267,7 +267,7 @@ PROPS = {
         technique="runtime monitoring: source snapshots + table hashing under ASan, and write-protected (mprotect) tables + in-place tails, role-rotation chains; buffer placement modes and a per-process prelude of unrelated calls",
     ),
     "C07": dict(
-        technique='runtime monitoring: pairwise differential of every accelerated kernel vs its reference twin and of the public API under both dispatch configurations (hook H1), also under 4 concurrent threads, ASan+UBSan + ThreadSanitizer pass over the multi-threaded cases; buffer placement modes (aligned, adjacent, guard pages, far apart, packed) and a per-process prelude of unrelated calls',
+        technique='runtime monitoring: pairwise differential of every accelerated kernel vs its reference twin and of the public API under both dispatch configurations (hook H1), also under 4 concurrent threads, ASan+UBSan + ThreadSanitizer pass over the multi-threaded cases; buffer placement modes (aligned, adjacent, guard pages, far apart incl. exact multiples of 64 GiB, packed, nearby page offsets) and a per-process prelude of unrelated calls',
         runs=std(),
         rule=("case = one pair comparison (accelerated catalogue entry ~ its reference twin, N, argument seed) or one "
               "dispatch comparison (public entry point under generic-C and accelerated dispatch, N, seed); both members "
@@ -290,7 +290,7 @@ PROPS = {
               "a DFT-space product and a coefficient-space operation on an inverse-DFT result (FFT64) or a dft/idft round "
               "trip (NTT120)"
              " Later additions have their own keys in by_case_class (DESIGN.md 5.1): call sequences and object life cycles, multi-threaded cases (also run under ThreadSanitizer), sweeps over every value of a size parameter, placement / alignment / data-structure modes drawn from the case hash."),
-        require={"all": ["concurrent_entry_calls", "programs", "operations_executed", "op:vmp_apply_dft_to_dft", "op:svp_apply_dft",
+        require={"all": ["concurrent_entry_calls", "programs", "operations_executed", "lifecycle_uses", "op:vmp_apply_dft_to_dft", "op:svp_apply_dft",
                          "op:vec_znx_idft_tmp_a", "op:vec_znx_big_range_normalize_base2k",
                          "edge:svp_apply_dft->vmp_apply_dft_to_dft", "edge:vmp_apply_dft_to_dft->vec_znx_idft",
                          "edge:vec_znx_idft->vec_znx_big_normalize_base2k"]},
@@ -298,6 +298,6 @@ PROPS = {
                      "(C01 budget per product, propagated through chained products); an operation is only emitted when "
                      "eps < 1/4 and all magnitudes are inside the documented ranges, so exact equality is the oracle",
                      ASAN_NOTE],
-        technique="runtime monitoring: random API programs checked online against an exact interpreter, under ASan+UBSan + ThreadSanitizer pass over the multi-threaded cases; buffer placement modes (aligned, adjacent, guard pages, far apart, packed) and a per-process prelude of unrelated calls",
+        technique="runtime monitoring: random API programs checked online against an exact interpreter, under ASan+UBSan + ThreadSanitizer pass over the multi-threaded cases; buffer placement modes (aligned, adjacent, guard pages, far apart incl. exact multiples of 64 GiB, packed, nearby page offsets) and a per-process prelude of unrelated calls",
     ),
 }
